@@ -756,7 +756,7 @@ func RunSharedStore(r *monitor.Run) {
 		}
 	}
 	for _, fac := range facs {
-		n := r.Pick(400, 30000)
+		n := r.Pick(400, 10000)
 		if fac.Name != "mem" {
 			n = r.Pick(60, 3000)
 		}
